@@ -84,3 +84,22 @@ Theorem C09_sup_norm_lower_bound f s theta m2 : check_infnorm_lb f s theta m2 = 
   exists t, (Q2R m2 < modsq f t)%R.
 Proof. exact (check_infnorm_lb_sound f s theta m2). Qed.
 Print Assumptions C09_sup_norm_lower_bound.
+
+(* round_zeros: exactly the coefficients of magnitude below the threshold are replaced by 0, the stored range is
+   kept, and on the unit circle the polynomial moves by at most (number of terms) * thresh *)
+From Coq Require Import Qabs.
+From Coquelicot Require Import Complex.
+From PyqspV Require Import Theory.CplxT Theory.QC Theory.RoundT.
+Theorem C09_round_zeros_coefficients th l j :
+  nth j (round_zeros_q th l) 0%Q = if Qltb (Qabs (nth j l 0%Q)) th then 0%Q else nth j l 0%Q.
+Proof. exact (round_zeros_nth th l j). Qed.
+Print Assumptions C09_round_zeros_coefficients.
+
+Theorem C09_round_zeros_length th l : length (round_zeros_q th l) = length l.
+Proof. exact (round_zeros_length th l). Qed.
+Print Assumptions C09_round_zeros_length.
+
+Theorem C09_round_zeros_sup (p : lpoly Q) (th : Q) (x xi : C) : Cmod x = 1%R -> Cmod xi = 1%R -> (0 <= Q2R th)%R ->
+  (Cmod (Cminus (evx CR x xi (lpQ2C p)) (evx CR x xi (lpQ2C (lp_round_zeros th p)))) <= INR (length (lp_coefs p)) * Q2R th)%R.
+Proof. exact (round_zeros_sup p th x xi). Qed.
+Print Assumptions C09_round_zeros_sup.
